@@ -241,7 +241,60 @@ def symx_exc(e):
     if _isinstance(e, (TypeError, AttributeError)):
         s = str(e)
         if any(n in s for n in _PROXY_NAMES):
+            if _legit_operand_error(s):
+                return
             raise EngineGap("proxy leaked into C code: %s" % s)
+
+
+_REPR = {"SymInt": 1, "SymBool": True, "SymBytes": b"a", "ShByteArray": bytearray(b"a"), "SymFloat": 1.5, "int": 1, "bool": True,
+         "bytes": b"a", "float": 1.5, "str": "a", "NoneType": None, "list": [1], "tuple": (1,), "dict": {}, "bytearray": bytearray(b"a")}
+_BINOPS = {"+": "__add__", "-": "__sub__", "*": "__mul__", "/": "__truediv__", "//": "__floordiv__", "%": "__mod__",
+           "**": "__pow__", "** or pow()": "__pow__", "^": "__xor__", "&": "__and__", "|": "__or__", "<<": "__lshift__", ">>": "__rshift__",
+           "@": "__matmul__"}
+
+
+def _legit_operand_error(msg):
+    """TypeError 'unsupported operand type(s) for OP: X and Y' / "'<' not supported between ..." that the
+    real types would raise as well is ordinary Python behaviour, not a leak"""
+    import operator as _op
+    m = _re.match(r"unsupported operand type\(s\) for (.+): '(\w+)' and '(\w+)'", msg)
+    if m:
+        opn, a, b = m.groups()
+        if a in _REPR and b in _REPR and opn in _BINOPS:
+            try:
+                x, y = _REPR[a], _REPR[b]
+                f = {"+": _op.add, "-": _op.sub, "*": _op.mul, "/": _op.truediv, "//": _op.floordiv, "%": _op.mod,
+                     "**": _op.pow, "** or pow()": _op.pow, "^": _op.xor, "&": _op.and_, "|": _op.or_, "<<": _op.lshift, ">>": _op.rshift,
+                     "@": _op.matmul}[opn]
+                f(x, y)
+            except TypeError:
+                return True
+            except Exception:
+                return False
+        return False
+    m = _re.match(r"'(\S+)' not supported between instances of '(\w+)' and '(\w+)'", msg)
+    if m:
+        opn, a, b = m.groups()
+        if a in _REPR and b in _REPR:
+            try:
+                f = {"<": _op.lt, "<=": _op.le, ">": _op.gt, ">=": _op.ge}[opn]
+                f(_REPR[a], _REPR[b])
+            except TypeError:
+                return True
+            except Exception:
+                return False
+        return False
+    m = _re.match(r"bad operand type for unary (\S+): '(\w+)'", msg)
+    if m:
+        opn, a = m.groups()
+        if a in _REPR:
+            try:
+                {"-": _op.neg, "+": _op.pos, "~": _op.invert}[opn](_REPR[a])
+            except TypeError:
+                return True
+            except Exception:
+                return False
+    return False
 
 
 # ---------------------------------------------------------------------------------------------
